@@ -93,40 +93,24 @@ func ruleDecoratorCompleteness(c *core.Ctx, rule string, include func(decorator)
 			info := d.Pkg.TypesInfo
 			// the success return wraps the inner result in the same type
 			var lit *ast.CompositeLit
+			var lenv *originEnv
 			wrapsInner := false
+			env := newOriginEnv(c, d)
 			ast.Inspect(d.Decl.Body, func(n ast.Node) bool {
 				r, ok := n.(*ast.ReturnStmt)
 				if !ok || len(r.Results) == 0 || isErrorReturn(info, d.Decl.Body, r) > 0 {
 					return true
 				}
-				e := ast.Unparen(r.Results[0])
-				if ue, ok := e.(*ast.UnaryExpr); ok && ue.Op == token.AND {
-					e = ue.X
-				}
-				if cl, ok := e.(*ast.CompositeLit); ok && astx.Named(info.TypeOf(cl)) == dec.Named {
-					lit = cl
+				if cl, le := env.resolveLit(r.Results[0]); cl != nil && astx.Named(le.info.TypeOf(cl)) == dec.Named {
+					lit, lenv = cl, le
 				}
 				return true
 			})
 			if lit != nil {
-				// Controller field is the first result of the inner call
-				var innerVar types.Object
-				ast.Inspect(d.Decl.Body, func(n ast.Node) bool {
-					if as, ok := n.(*ast.AssignStmt); ok && len(as.Rhs) == 1 {
-						if call, ok := as.Rhs[0].(*ast.CallExpr); ok {
-							if f := astx.Callee(info, call); f != nil && f.Name() == m {
-								if id, ok := as.Lhs[0].(*ast.Ident); ok {
-									innerVar = info.ObjectOf(id)
-								}
-							}
-						}
-					}
-					return true
-				})
+				// the Controller field is the first result of the inner call
 				if v := fieldOfCompositeLit(lit, dec.Field); v != nil {
-					if id, ok := ast.Unparen(v).(*ast.Ident); ok && info.Uses[id] == innerVar && innerVar != nil {
-						wrapsInner = true
-					}
+					o := lenv.origin(v)
+					wrapsInner = strings.HasSuffix(o, "#0") && strings.Contains(o, "."+m+"(")
 				}
 			}
 			// copy idiom: ret := *c; ret.<field> = inner; return &ret
